@@ -11,7 +11,7 @@ CONSTANTS
   TTL = 2
   MaxClock = 1000
   MaxHist = 99
-  Shapes = {"ptr", "str", "map"}
+  Shapes = @@SHAPES@@
   FixSets = @@FIXSETS@@
   Emit = FALSE
   Only = "all"
